@@ -77,6 +77,9 @@ def topology():
         # ... and lower-case names that begin like an operator word (and, or, lt, le, eq, ne, ge, gt, not, to)
         for nm in ("re", "atom", "topology", "self", "nex", "orange", "left", "gtp", "andy", "eq1", "notch", "tom"):
             top.add_atom(nm, _el.carbon, r)
+        # ... and real atom names that are operator words in another case (NE of arginine, GE / Ne as element-like names)
+        for nm in ("NE", "GE", "LT", "EQ", "OR", "Not", "AND", "Ne"):
+            top.add_atom(nm, _el.carbon, r)
         ch = top.add_chain()
         for k_, rn in enumerate(("WAT", "SOL", "TIP3", "H2O")):       # the other conventional names of a water residue
             r = top.add_residue(rn, ch, resSeq=850 + k_)
@@ -161,7 +164,8 @@ def _edit(top, kind, k):
 def leaf_strategy():
     _top, _attr, pool = topology()
 
-    SPECIAL = {"re", "atom", "topology", "self", "nex", "orange", "left", "gtp", "andy", "eq1", "notch", "tom", "O5'", "C5'", "H5''", "C2'", "O2*", "ACE", "NME", "WAT", "SOL", "TIP3", "H2O", "G", "DA5"}
+    SPECIAL = {"re", "atom", "topology", "self", "nex", "orange", "left", "gtp", "andy", "eq1", "notch", "tom", "O5'", "C5'", "H5''", "C2'", "O2*", "ACE", "NME", "WAT", "SOL", "TIP3", "H2O", "G", "DA5",
+               "NE", "GE", "LT", "EQ", "OR", "Not", "AND", "Ne"}
 
     def val(k):
         sp = [v for v in pool[k] if v in SPECIAL]
